@@ -8,6 +8,7 @@ mod spec;
 mod p01;
 mod p02;
 mod p03;
+mod p04;
 
 use engine::*;
 use std::path::PathBuf;
@@ -18,6 +19,7 @@ macro_rules! for_prop {
             "C01" => $f::<p01::P>($($arg),*),
             "C02" => $f::<p02::P>($($arg),*),
             "C03" => $f::<p03::P>($($arg),*),
+            "C04" => $f::<p04::P>($($arg),*),
             other => {
                 eprintln!("unknown property {other}");
                 std::process::exit(2)
